@@ -177,6 +177,25 @@ func c18Observe(rec *httptest.ResponseRecorder) string {
 	return fmt.Sprintf("%d %s %s %s %s %s", res.StatusCode, ce, cl, vary, etag, c18Parse(body, res.StatusCode))
 }
 
+// c18Rec is the connection-level writer of the in-process runs: a ResponseRecorder that, like
+// net/http's *response, also implements io.ReaderFrom and io.StringWriter, so that fast paths of
+// wrappers that forward to them are exercised (httptest.ResponseRecorder alone hides them).
+type c18Rec struct{ *httptest.ResponseRecorder }
+
+func (r c18Rec) ReadFrom(src io.Reader) (int64, error) {
+	b, err := io.ReadAll(src)
+	if len(b) == 0 {
+		return 0, err // like net/http: nothing read, nothing written, no header committed
+	}
+	n, werr := r.ResponseRecorder.Write(b)
+	if err == nil {
+		err = werr
+	}
+	return int64(n), err
+}
+
+func (r c18Rec) WriteString(s string) (int, error) { return r.ResponseRecorder.WriteString(s) }
+
 // c18Run serves one request through mids+inner the way Server.ServeHTTP does (fallback error writer).
 func c18Run(mids []httpserver.Middleware, inner httpserver.Handler, path, ae string) string {
 	h := inner
@@ -189,11 +208,75 @@ func c18Run(mids []httpserver.Middleware, inner httpserver.Handler, path, ae str
 		r.Header.Set("Accept-Encoding", ae)
 	}
 	rec := httptest.NewRecorder()
-	status, _ := h.ServeHTTP(rec, r)
+	status, _ := h.ServeHTTP(c18Rec{rec}, r)
 	if status >= 400 {
 		httpserver.DefaultErrorFunc(rec, r, status)
 	}
 	return c18Observe(rec)
+}
+
+// c18IsBodyOp: ops that output the next piece of the body: w Write, c io.Copy from a reader
+// without WriterTo, s io.WriteString
+func c18IsBodyOp(o string) bool { return o == "w" || o == "c" || o == "s" }
+
+// c18Inner builds the scripted handler.
+func c18Inner(hp []string, phys []byte, ops []string, ret int) httpserver.Handler {
+	nw := 0
+	for _, o := range ops {
+		if c18IsBodyOp(o) {
+			nw++
+		}
+	}
+	return httpserver.HandlerFunc(func(w http.ResponseWriter, r *http.Request) (int, error) {
+		if ce := hx.UnHS(hp[0]); ce != "" {
+			w.Header().Set("Content-Encoding", ce)
+		}
+		if hp[1] != "-" {
+			w.Header().Set("Content-Length", hp[1])
+		}
+		if hp[2] == "1" {
+			w.Header().Add("Vary", "Accept-Encoding")
+		}
+		switch hp[3] {
+		case "s":
+			w.Header().Set("ETag", `"c18tag"`)
+		case "w":
+			w.Header().Set("ETag", `W/"c18tag"`)
+		}
+		w.Header().Set("Content-Type", "text/plain; charset=utf-8")
+		k := 0
+		for _, o := range ops {
+			switch {
+			case c18IsBodyOp(o):
+				chunk := phys[k*len(phys)/nw : (k+1)*len(phys)/nw]
+				k++
+				switch o {
+				case "w":
+					w.Write(chunk)
+				case "c":
+					if len(chunk) == 0 {
+						// io.Copy of nothing calls nothing (not even a zero-length Write); keep the
+						// op a body output like the model's
+						w.Write(chunk)
+						break
+					}
+					// the struct hides bytes.Reader's WriteTo, so io.Copy looks for ReaderFrom on w
+					io.Copy(w, struct{ io.Reader }{bytes.NewReader(chunk)})
+				case "s":
+					io.WriteString(w, string(chunk))
+				}
+			case o == "f":
+				w.(http.Flusher).Flush()
+			case strings.HasPrefix(o, "h"):
+				code, _ := strconv.Atoi(o[1:])
+				w.WriteHeader(code)
+			}
+		}
+		if ret >= 500 {
+			return ret, errors.New("inner failed")
+		}
+		return ret, nil
+	})
 }
 
 func c18WrapEval(f []string) (string, []string) {
@@ -222,49 +305,12 @@ func c18WrapEval(f []string) (string, []string) {
 	}
 	nw := 0
 	for _, o := range ops {
-		if o == "w" {
+		if c18IsBodyOp(o) {
 			nw++
 		}
 	}
 	ret, _ := strconv.Atoi(f[7])
-	mk := func() httpserver.Handler {
-		return httpserver.HandlerFunc(func(w http.ResponseWriter, r *http.Request) (int, error) {
-			if ce := hx.UnHS(hp[0]); ce != "" {
-				w.Header().Set("Content-Encoding", ce)
-			}
-			if hp[1] != "-" {
-				w.Header().Set("Content-Length", hp[1])
-			}
-			if hp[2] == "1" {
-				w.Header().Add("Vary", "Accept-Encoding")
-			}
-			switch hp[3] {
-			case "s":
-				w.Header().Set("ETag", `"c18tag"`)
-			case "w":
-				w.Header().Set("ETag", `W/"c18tag"`)
-			}
-			w.Header().Set("Content-Type", "text/plain; charset=utf-8")
-			k := 0
-			for _, o := range ops {
-				switch {
-				case o == "w":
-					lo, hi := k*len(phys)/nw, (k+1)*len(phys)/nw
-					k++
-					w.Write(phys[lo:hi])
-				case o == "f":
-					w.(http.Flusher).Flush()
-				case strings.HasPrefix(o, "h"):
-					code, _ := strconv.Atoi(o[1:])
-					w.WriteHeader(code)
-				}
-			}
-			if ret >= 500 {
-				return ret, errors.New("inner failed")
-			}
-			return ret, nil
-		})
-	}
+	mk := func() httpserver.Handler { return c18Inner(hp, phys, ops, ret) }
 	g := c18Run(mids, mk(), path, ae)
 	p := c18Run(nil, mk(), path, ae)
 	tags := []string{}
@@ -286,7 +332,109 @@ func c18WrapEval(f []string) (string, []string) {
 	if strings.Contains(f[6], "f") {
 		tags = append(tags, "flush")
 	}
+	if strings.Contains(f[6], "c") || strings.Contains(f[6], "s") {
+		tags = append(tags, "copy-or-writestring")
+	}
 	return g + "\t" + p, tags
+}
+
+// ---- c18.live: write patterns against a real net/http server connection ----
+//
+// c18.live  blocks  path  ae  innerhdr  body  plen  ops  ret     (same case format as c18.wrap)
+//   out = <with gzip> TAB <without>; each: status ce term   (net/http adds its own Content-Length,
+//   so the Content-Length state is left to c18.wrap)
+
+func c18LiveRun(mids []httpserver.Middleware, inner httpserver.Handler, path, ae string) string {
+	h := inner
+	for i := len(mids) - 1; i >= 0; i-- {
+		h = mids[i](h)
+	}
+	srv := httptest.NewServer(http.HandlerFunc(func(w http.ResponseWriter, r *http.Request) {
+		status, _ := h.ServeHTTP(w, r)
+		if status >= 400 {
+			httpserver.DefaultErrorFunc(w, r, status)
+		}
+	}))
+	defer srv.Close()
+	req, err := http.NewRequest("GET", srv.URL+path, nil)
+	if err != nil {
+		return "0 - X-bad-request"
+	}
+	if ae != "" {
+		req.Header.Set("Accept-Encoding", ae)
+	}
+	tr := &http.Transport{DisableCompression: true}
+	defer tr.CloseIdleConnections()
+	res, err := tr.RoundTrip(req)
+	if err != nil {
+		return "0 - X-roundtrip-error"
+	}
+	body, rerr := io.ReadAll(res.Body)
+	res.Body.Close()
+	ce := strings.Join(res.Header.Values("Content-Encoding"), ",")
+	if ce == "" {
+		ce = "-"
+	} else {
+		ce = hx.HS(ce)
+	}
+	if rerr != nil {
+		return fmt.Sprintf("%d %s X-read-error-after-%d-bytes", res.StatusCode, ce, len(body))
+	}
+	return fmt.Sprintf("%d %s %s", res.StatusCode, ce, c18Parse(body, res.StatusCode))
+}
+
+func c18LiveEval(f []string) (string, []string) {
+	if len(f) != 8 {
+		return "bad-case", nil
+	}
+	mids, err := c18Middleware(f[0])
+	if err != nil {
+		return "setup-error:" + err.Error(), nil
+	}
+	path, ae := hx.UnHS(f[1]), hx.UnHS(f[2])
+	hp := strings.Split(f[3], "|")
+	if len(hp) != 4 {
+		return "bad-case", nil
+	}
+	phys, err := c18Encode(f[4])
+	if err != nil || strconv.Itoa(len(phys)) != f[5] {
+		return "bad-case", nil
+	}
+	var ops []string
+	if f[6] != "" {
+		ops = strings.Split(f[6], ",")
+	}
+	ret, _ := strconv.Atoi(f[7])
+	g := c18LiveRun(mids, c18Inner(hp, phys, ops, ret), path, ae)
+	p := c18LiveRun(nil, c18Inner(hp, phys, ops, ret), path, ae)
+	tags := []string{"live"}
+	if strings.Split(g, " ")[1] != strings.Split(p, " ")[1] {
+		tags = append(tags, "compressed")
+	} else {
+		tags = append(tags, "not-compressed")
+	}
+	return g + "\t" + p, tags
+}
+
+var c18LiveOps = []string{"w", "c", "s", "c,w", "c,f", "c,f,c", "w,c", "h200,c", "h200,c,w", "f,c", "c,c,c", "s,w", "s,f,s", "w,f,w", "h404,c,f", "c,h500,w", "f,w", "h201,w,s,c"}
+
+func c18LiveGen(g *hx.Gen) {
+	for _, ops := range c18LiveOps {
+		for _, ae := range []string{"gzip", "", "gzip;q=0"} {
+			for _, bl := range []string{c18Blocks[0], c18Blocks[4], c18Blocks[2]} {
+				for ci, ce := range c18CEs[:3] {
+					for _, n := range []int{3, 40, 5000} {
+						if !g.Thorough() && ((ci != 0 && n != 40) || (ae == "gzip;q=0" && n != 40)) {
+							continue
+						}
+						for _, cl := range []bool{false, true} {
+							c18WrapCase(g, bl, "/a.txt", ae, ce, cl, "0", "s", n, ops, 0)
+						}
+					}
+				}
+			}
+		}
+	}
 }
 
 // ---- static files ----
@@ -416,7 +564,8 @@ type c18CE struct{ hdr, wrap string }
 var c18CEs = []c18CE{{"", ""}, {"identity", ""}, {"gzip", "gzip"}, {"zstd", "zstd"}, {"br", "br"}, {"deflate", ""}, {"compress", ""},
 	{"x-foo", ""}, {"GZIP", "gzip"}, {"", "gzip"}, {"gzip, br", ""}}
 
-var c18Ops = []string{"", "h200", "w", "h200,w", "h404,w", "w,w,w", "f,w", "w,f,w", "h200,f,w,f", "f", "h204", "h304", "h200,w,f", "h201,w,w", "f,f,w,w", "h200,h404,w", "w,h500,w", "f,h206,w", "h200,w,h404,w,f"}
+var c18Ops = []string{"", "h200", "w", "h200,w", "h404,w", "w,w,w", "f,w", "w,f,w", "h200,f,w,f", "f", "h204", "h304", "h200,w,f", "h201,w,w", "f,f,w,w", "h200,h404,w", "w,h500,w", "f,h206,w", "h200,w,h404,w,f",
+	"c", "c,w", "c,f", "c,f,c", "h200,c", "w,c", "s", "s,w", "s,f", "c,s,w", "f,c", "c,h500,w"}
 
 func c18Body(wrap string, n int) (term string, plen int) {
 	b := make([]byte, n)
@@ -470,7 +619,7 @@ func c18WrapGen(g *hx.Gen) {
 									rets := []int{0}
 									if ops == "" {
 										rets = []int{0, 200, 404, 500}
-									} else if strings.Contains(ops, "w") {
+									} else if strings.ContainsAny(ops, "wcs") {
 										rets = []int{0, 200}
 									}
 									for _, ret := range rets {
@@ -502,7 +651,7 @@ func c18WrapGen(g *hx.Gen) {
 				o = append(o, "h"+hx.Pick(g.Rng, []string{"200", "201", "206", "404", "500", "301"}))
 			}
 			for k := g.Rng.Intn(5); k > 0; k-- {
-				o = append(o, hx.Pick(g.Rng, []string{"w", "w", "f"}))
+				o = append(o, hx.Pick(g.Rng, []string{"w", "w", "f", "c", "s"}))
 			}
 			ops = strings.Join(o, ",")
 		}
@@ -521,7 +670,9 @@ func c18WrapGen(g *hx.Gen) {
 }
 
 var c18StaticAEs = []string{"", "gzip", "br", "zstd", "zstd, gzip", "gzip, zstd", "br, gzip", "gzip,br,zstd", " zstd ,gzip", "zstd;q=1, gzip",
-	"gzip;q=0, zstd", "identity", "*", "deflate", "gzip;q=0", "ZSTD, gzip", "br,gzip;q=0"}
+	"gzip;q=0, zstd", "identity", "*", "deflate", "gzip;q=0", "ZSTD, gzip", "br,gzip;q=0",
+	// other spellings of a refusal, and parameters on offered codings
+	"gzip;q=0.0", "gzip; q=0", "gzip;Q=0", "br;q=0.000, gzip;q=0.", "zstd;q=0;x=1, br;q=0.8", "gzip ;q=0.00 , zstd;q=0.5"}
 
 var c18StaticBlocks = []string{"", "||0|", hx.HS("*") + "||0|", "||10|", "|" + hx.HS("/m3") + "|0|", "||200|"}
 
@@ -558,7 +709,7 @@ func c18RangeRun(mids []httpserver.Middleware, path, ae, rng, name string, mask 
 	}
 	r.Header.Set("Range", "bytes="+rng)
 	rec := httptest.NewRecorder()
-	status, _ := h.ServeHTTP(rec, r)
+	status, _ := h.ServeHTTP(c18Rec{rec}, r)
 	if status >= 400 {
 		httpserver.DefaultErrorFunc(rec, r, status)
 	}
@@ -653,6 +804,7 @@ func c18RangeGen(g *hx.Gen) {
 
 func init() {
 	hx.Register(&hx.Stream{ID: "C18", Name: "c18.range", Gen: c18RangeGen, Eval: c18RangeEval, Setup: c18StaticSetup, Teardown: c18StaticTeardown})
+	hx.Register(&hx.Stream{ID: "C18", Name: "c18.live", Gen: c18LiveGen, Eval: c18LiveEval})
 	hx.Register(&hx.Stream{ID: "C18", Name: "c18.wrap", Gen: c18WrapGen, Eval: c18WrapEval})
 	hx.Register(&hx.Stream{ID: "C18", Name: "c18.static", Gen: c18StaticGen, Eval: c18StaticEval, Setup: c18StaticSetup, Teardown: c18StaticTeardown})
 }
